@@ -71,7 +71,12 @@ def aligned_lists(rep):
                 break
 
     def do(step, fn, pid, add):
-        fn()
+        try:
+            fn()
+        except Exception as e:  # noqa: BLE001
+            rep.violation({"kind": "aligned-list", "what": "a call that must succeed raised %s" % type(e).__name__},
+                          {"step": step})
+            return
         (bound.append if add else bound.remove)(pid)
         audit(step)
 
